@@ -927,26 +927,44 @@ where
     T: Hash + Eq,
     str: Equivalent<T>,
 {
-    let (from, replaced) = set.replace_full(rule);
+    // Look up the rules that are used as anchors before changing anything, so the set is left
+    // untouched if there is an error.
+    let after_idx = match after {
+        Some(rule_id) => {
+            Some(set.get_index_of(rule_id).ok_or(InsertPushRuleError::UnknownRuleId)?)
+        }
+        None => None,
+    };
+    let before_idx = match before {
+        Some(rule_id) => {
+            Some(set.get_index_of(rule_id).ok_or(InsertPushRuleError::UnknownRuleId)?)
+        }
+        None => None,
+    };
 
-    let mut to = default_position;
-
-    if let Some(rule_id) = after {
-        let idx = set.get_index_of(rule_id).ok_or(InsertPushRuleError::UnknownRuleId)?;
-        to = idx + 1;
-    }
-    if let Some(rule_id) = before {
-        let idx = set.get_index_of(rule_id).ok_or(InsertPushRuleError::UnknownRuleId)?;
-
-        if idx < to {
+    if let (Some(after_idx), Some(before_idx)) = (after_idx, before_idx) {
+        if before_idx <= after_idx {
             return Err(InsertPushRuleError::BeforeHigherThanAfter);
         }
-
-        to = idx;
     }
+
+    // A new rule is appended, so this doesn't change the indices of the other rules.
+    let (from, replaced) = set.replace_full(rule);
 
     // Only move the item if it's new or if it was positioned.
     if replaced.is_none() || after.is_some() || before.is_some() {
+        let mut to = match (before_idx, after_idx) {
+            (Some(before_idx), _) => before_idx,
+            (None, Some(after_idx)) => after_idx + 1,
+            (None, None) => default_position.min(set.len() - 1),
+        };
+
+        // The rule is removed from its current position before it is inserted at the new one, so
+        // the rules that come after it are shifted by one.
+        if from < to {
+            to -= 1;
+        }
+
         set.move_index(from, to);
     }
 
